@@ -8,6 +8,60 @@ namespace vf {
 
 enum class Profile { Valid, Reject, Full };
 
+// a populated block so that the misuse steps meet entities of every kind from the first step on
+inline void furnishFile(nix::File &f) {
+    nix::Block b = f.createBlock("zz", "t");
+    nix::DataArray a2 = b.createDataArray("zz_2d", "t", nix::DataType::Double, nix::NDSize({4, 3}));
+    std::vector<double> v(12);
+    for (size_t i = 0; i < 12; i++) v[i] = static_cast<double>(i);
+    a2.setData(nix::DataType::Double, v.data(), nix::NDSize({4, 3}), nix::NDSize({0, 0}));
+    a2.appendSampledDimension(0.5, "time", "ms", 1.0);
+    a2.appendSetDimension(std::vector<std::string>{"a", "b", "c"});
+    nix::DataArray a1 = b.createDataArray("zz_range", "t", nix::DataType::Int32, nix::NDSize({5}));
+    a1.appendRangeDimension(std::vector<double>{0.0, 1.0, 2.5, 4.0, 8.0}, "x", "s");
+    a1.polynomCoefficients({1.0, 2.0});
+    a1.expansionOrigin(0.5);
+    nix::DataArray as = b.createDataArray("zz_str", "t", nix::DataType::String, nix::NDSize({4}));
+    std::vector<std::string> sv = {"one", "two"};
+    as.setData(nix::DataType::String, sv.data(), nix::NDSize({2}), nix::NDSize({1}));
+    as.appendSetDimension();
+    std::vector<nix::Column> cols = {{"c0", "mV", nix::DataType::Double}, {"c1", "", nix::DataType::String}, {"c2", "", nix::DataType::Int32}};
+    nix::DataFrame df = b.createDataFrame("zz_frame", "t", cols);
+    df.rows(3);
+    nix::DataArray af = b.createDataArray("zz_framed", "t", nix::DataType::Float, nix::NDSize({3}));
+    af.appendDataFrameDimension(df, 0u);
+    nix::Tag tg = b.createTag("zz_tag", "t", {1.5, 0.0});
+    tg.extent({1.0, 1.0});
+    tg.addReference(a2);
+    tg.createFeature(a1, nix::LinkType::Tagged);
+    tg.createFeature(as, nix::LinkType::Indexed);
+    nix::DataArray pos = b.createDataArray("zz_pos", "t", nix::DataType::Double, nix::NDSize({2, 2}));
+    pos.appendSetDimension();
+    pos.appendSetDimension();
+    nix::MultiTag mt = b.createMultiTag("zz_mtag", "t", pos);
+    mt.addReference(a2);
+    mt.createFeature(a1, nix::LinkType::Indexed);
+    nix::Group g = b.createGroup("zz_group", "t");
+    g.addDataArray(a2);
+    g.addTag(tg);
+    nix::DataArray ext = b.createDataArray("zz_ext", "t", nix::DataType::Double, nix::NDSize({2, 2}));
+    ext.appendSetDimension();
+    ext.appendSetDimension();
+    mt.extents(ext);
+    nix::Source root = b.createSource("zz_source", "t");
+    nix::Source c1 = root.createSource("zz_child1", "t"), c2 = root.createSource("zz_child2", "t"), c3 = root.createSource("zz_child3", "t");
+    nix::Source g2 = c2.createSource("zz_grandchild", "t");
+    a2.addSource(c2);
+    tg.addSource(g2);
+    mt.addSource(c1);
+    g.addSource(c3);
+    b.createDataFrame("zz_frame2", "t", cols);
+    nix::Section s = f.createSection("zz_section", "t");
+    s.createProperty("zz_prop", nix::Variant(1.5));
+    s.createSection("zz_sub", "t");
+}
+
+
 struct StepInfo {
     std::string op;          // operation kind
     std::string bad;         // class of invalid argument, "" if all arguments are in contract
@@ -73,7 +127,7 @@ struct Prog {
         return s;
     }
     std::string name(std::string &bad) {
-        if (prof != Profile::Valid && t.chance(12)) {
+        if (prof != Profile::Valid && t.chance(6)) {
             switch (t.below(3)) {
             case 0: bad = "empty_name"; return "";
             case 1: bad = "slash_name"; return "a/b";
@@ -82,8 +136,16 @@ struct Prog {
         }
         return goodName();
     }
+    // an attempted duplicate: the name of an existing sibling (every create must refuse it)
+    template <typename Count, typename Get> std::string maybeDuplicate(const std::string &n, std::string &bad, Count count, Get get) {
+        if (!bad.empty() || !t.chance(12)) return n;
+        size_t k = count();
+        if (!k) return n;
+        bad = "duplicate_name";
+        return get(t.below(static_cast<uint32_t>(k))).name();
+    }
     std::string type(std::string &bad) {
-        if (prof != Profile::Valid && t.chance(8)) {
+        if (prof != Profile::Valid && t.chance(4)) {
             bad = "empty_type";
             return "";
         }
@@ -106,10 +168,31 @@ struct Prog {
         }
         return nix::Block();
     }
+    // Some operands are handles obtained in earlier steps (a user keeps handles around): state that a
+    // backend object caches per handle only matters when the same handle is used again.
+    template <typename E> E reuse(std::vector<std::pair<std::string, E>> &cache, const nix::Block &b, E fresh) {
+        std::string bid = b.id();
+        if (!cache.empty() && t.chance(50)) {
+            auto &c = cache[t.below(static_cast<uint32_t>(cache.size()))];
+            bool ok = false;
+            try { ok = c.first == bid && c.second && c.second.isValidEntity(); } catch (const std::exception &) { ok = false; }
+            if (ok) return c.second;
+        }
+        if (fresh) {
+            if (cache.size() < 3) cache.emplace_back(bid, fresh);
+            else cache[t.below(3)] = std::make_pair(bid, fresh);
+        }
+        return fresh;
+    }
+    std::vector<std::pair<std::string, nix::DataArray>> heldArrays;
+    std::vector<std::pair<std::string, nix::Tag>> heldTags;
+    std::vector<std::pair<std::string, nix::MultiTag>> heldMTags;
+    std::vector<std::pair<std::string, nix::Group>> heldGroups;
+
     nix::DataArray arr(const nix::Block &b) {
         if (!b) return nix::DataArray();
         size_t n = b.dataArrayCount();
-        return n ? b.getDataArray(t.below(static_cast<uint32_t>(n))) : nix::DataArray();
+        return reuse(heldArrays, b, n ? b.getDataArray(t.below(static_cast<uint32_t>(n))) : nix::DataArray());
     }
     nix::DataFrame frm(const nix::Block &b) {
         if (!b) return nix::DataFrame();
@@ -119,17 +202,17 @@ struct Prog {
     nix::Tag tag(const nix::Block &b) {
         if (!b) return nix::Tag();
         size_t n = b.tagCount();
-        return n ? b.getTag(t.below(static_cast<uint32_t>(n))) : nix::Tag();
+        return reuse(heldTags, b, n ? b.getTag(t.below(static_cast<uint32_t>(n))) : nix::Tag());
     }
     nix::MultiTag mtag(const nix::Block &b) {
         if (!b) return nix::MultiTag();
         size_t n = b.multiTagCount();
-        return n ? b.getMultiTag(t.below(static_cast<uint32_t>(n))) : nix::MultiTag();
+        return reuse(heldMTags, b, n ? b.getMultiTag(t.below(static_cast<uint32_t>(n))) : nix::MultiTag());
     }
     nix::Group grp(const nix::Block &b) {
         if (!b) return nix::Group();
         size_t n = b.groupCount();
-        return n ? b.getGroup(t.below(static_cast<uint32_t>(n))) : nix::Group();
+        return reuse(heldGroups, b, n ? b.getGroup(t.below(static_cast<uint32_t>(n))) : nix::Group());
     }
     nix::Source src(const nix::Block &b, size_t *depth = nullptr) {
         if (!b) return nix::Source();
@@ -244,7 +327,14 @@ struct Prog {
         return si;
     }
 
+    void dropHeld() {
+        heldArrays.clear();
+        heldTags.clear();
+        heldMTags.clear();
+        heldGroups.clear();
+    }
     void reopen(StepInfo &si) {
+        dropHeld();
         si.op = "reopen";
         si.is_reopen = true;
         si.mutator = false;
@@ -459,11 +549,13 @@ struct Prog {
         case 0: { // ---- file level ----------------------------------------------------------
             if (t.flip()) {
                 std::string n = name(si.bad), ty = type(si.bad);
+                n = maybeDuplicate(n, si.bad, [&] { return f.blockCount(); }, [&](size_t i) { return f.getBlock(i); });
                 si.op = "File.createBlock";
                 si.is_create = true;
                 f.createBlock(n, ty);
             } else {
                 std::string n = name(si.bad), ty = type(si.bad);
+                n = maybeDuplicate(n, si.bad, [&] { return f.sectionCount(); }, [&](size_t i) { return f.getSection(i); });
                 si.op = "File.createSection";
                 si.is_create = true;
                 f.createSection(n, ty);
@@ -486,6 +578,7 @@ struct Prog {
                 }
                 nix::NDSize shape(rank, 1);
                 for (size_t i = 0; i < rank; i++) shape[i] = 1 + t.below(4);
+                n = maybeDuplicate(n, si.bad, [&] { return b.dataArrayCount(); }, [&](size_t i) { return b.getDataArray(i); });
                 si.op = "Block.createDataArray";
                 b.createDataArray(n, ty, dt, shape, static_cast<nix::Compression>(t.below(3)));
                 break;
@@ -504,12 +597,14 @@ struct Prog {
                     if (t.flip()) { cols[0].dtype = nix::DataType::Nothing; si.bad = "unsupported_dtype"; }
                     else { cols.push_back(cols[0]); si.bad = "duplicate_column"; }
                 }
+                n = maybeDuplicate(n, si.bad, [&] { return b.dataFrameCount(); }, [&](size_t i) { return b.getDataFrame(i); });
                 si.op = "Block.createDataFrame";
                 b.createDataFrame(n, ty, cols);
                 break;
             }
             case 2: {
                 std::vector<double> pos = dvec(3, true);
+                n = maybeDuplicate(n, si.bad, [&] { return b.tagCount(); }, [&](size_t i) { return b.getTag(i); });
                 si.op = "Block.createTag";
                 b.createTag(n, ty, pos);
                 break;
@@ -519,11 +614,12 @@ struct Prog {
                 si.op = "Block.createMultiTag";
                 si.is_link = true;
                 if (!a && si.bad.empty()) si.bad = "target_uninitialized";
+                n = maybeDuplicate(n, si.bad, [&] { return b.multiTagCount(); }, [&](size_t i) { return b.getMultiTag(i); });
                 b.createMultiTag(n, ty, a);
                 break;
             }
-            case 4: si.op = "Block.createGroup"; b.createGroup(n, ty); break;
-            default: si.op = "Block.createSource"; b.createSource(n, ty); break;
+            case 4: n = maybeDuplicate(n, si.bad, [&] { return b.groupCount(); }, [&](size_t i) { return b.getGroup(i); }); si.op = "Block.createGroup"; b.createGroup(n, ty); break;
+            default: n = maybeDuplicate(n, si.bad, [&] { return b.sourceCount(); }, [&](size_t i) { return b.getSource(i); }); si.op = "Block.createSource"; b.createSource(n, ty); break;
             }
             break;
         }
@@ -637,7 +733,32 @@ struct Prog {
         case 3: { // ---- data array ------------------------------------------------------------
             nix::DataArray a = arr(b);
             if (!a) { si.op = "noop"; si.mutator = false; break; }
-            switch (t.pick({3, 3, 3, 3, 2, 4, 2, 3, 3, 2})) {
+            switch (t.pick({3, 3, 3, 3, 2, 4, 2, 3, 3, 2, 3})) {
+            case 10: {
+                // append a block along an axis: all other extents have to match
+                nix::NDSize ext = a.dataExtent();
+                size_t R = ext.size();
+                if (R == 0) { si.op = "noop"; si.mutator = false; break; }
+                size_t axis = t.below(static_cast<uint32_t>(R));
+                nix::NDSize cnt = ext;
+                cnt[axis] = 1 + t.below(3);
+                if (prof != Profile::Valid && t.chance(40)) {
+                    switch (t.below(3)) {
+                    case 0: { size_t d = t.below(static_cast<uint32_t>(R)); if (d != axis) { cnt[d] = ext[d] + 1 + t.below(2); si.bad = "shape_mismatch"; } else { axis = R + t.below(2); si.bad = "axis_out_of_range"; } break; }
+                    case 1: cnt = nix::NDSize(R + 1, 1); si.bad = "wrong_rank"; break;
+                    default: axis = R + t.below(3); si.bad = "axis_out_of_range"; break;
+                    }
+                }
+                uint64_t n = 1;
+                for (size_t d = 0; d < cnt.size(); d++) n *= cnt[d];
+                si.op = "DataArray.appendData";
+                if (n == 0 || n > 4096) { si.op = "noop"; si.mutator = false; si.bad.clear(); break; }
+                nix::DataType dt = a.dataType();
+                if (dt == nix::DataType::String) { std::vector<std::string> v(n, "ap"); a.appendData(dt, v.data(), cnt, axis); }
+                else if (dt == nix::DataType::Bool) { std::unique_ptr<bool[]> v(new bool[n]); for (uint64_t i = 0; i < n; i++) v[i] = true; a.appendData(dt, v.get(), cnt, axis); }
+                else { std::vector<double> v(n, 7.0); a.appendData(nix::DataType::Double, v.data(), cnt, axis); }
+                break;
+            }
             case 0: {
                 static const char *labs[] = {"voltage", "l", "\xc3\xa4", ""};
                 std::string l = labs[t.below(prof == Profile::Valid ? 3 : 4)];
@@ -931,6 +1052,7 @@ struct Prog {
             case 0: {
                 if (d >= 4) { si.op = "noop"; si.mutator = false; break; }
                 std::string n = name(si.bad), ty = type(si.bad);
+                n = maybeDuplicate(n, si.bad, [&] { return s.sourceCount(); }, [&](size_t i) { return s.getSource(i); });
                 si.op = "Source.createSource";
                 si.is_create = true;
                 s.createSource(n, ty);
@@ -949,6 +1071,7 @@ struct Prog {
             case 0: {
                 if (d >= 4) { si.op = "noop"; si.mutator = false; break; }
                 std::string n = name(si.bad), ty = type(si.bad);
+                n = maybeDuplicate(n, si.bad, [&] { return s.sectionCount(); }, [&](size_t i) { return s.getSection(i); });
                 si.op = "Section.createSection";
                 si.is_create = true;
                 s.createSection(n, ty);
@@ -956,6 +1079,7 @@ struct Prog {
             }
             case 1: {
                 std::string n = name(si.bad);
+                n = maybeDuplicate(n, si.bad, [&] { return s.propertyCount(); }, [&](size_t i) { return s.getProperty(i); });
                 si.is_create = true;
                 switch (t.below(3)) {
                 case 0: {
